@@ -21,6 +21,7 @@ type serveOpt struct {
 	Status  int    ` + "`json:\"status\"`" + `  // strict: StatusCode for non-fixed responses
 	CType   string ` + "`json:\"ctype\"`" + `   // strict: ContentType for wildcard responses
 	HErr    bool   ` + "`json:\"herr\"`" + `    // strict: handler returns an error
+	HErrResp bool  ` + "`json:\"herrresp\"`" + ` // strict: … together with a response object (the error counts)
 	Foreign bool   ` + "`json:\"foreign\"`" + ` // strict: handler returns a response object of another operation
 	Entry   int    ` + "`json:\"entry\"`" + `   // 1: build the server through the other entry points of the package (Handler / HandlerFromMux / HandlerFromMuxWithBaseURL, RegisterHandlers) when no option beyond the base URL is needed
 	Warm    int    ` + "`json:\"warm\"`" + `    // the same request is served this many times on the same server first (state left behind shows in the observed one)
@@ -41,6 +42,20 @@ var rec struct {
 var curOpt serveOpt
 
 func resetRec() { rec.Calls = nil; rec.Trace = nil; rec.Errs = nil; rec.Reply = nil }
+
+// takeScopes records the published scopes and then edits the slice it was handed, as a consumer may (sort it, say): the
+// slice is that request's own, the next request gets the document's scopes afresh
+func takeScopes(v interface{}) interface{} {
+	ss, ok := v.([]string)
+	if !ok {
+		return v
+	}
+	cp := append([]string{}, ss...)
+	for i := range ss {
+		ss[i] = "edited-by-an-earlier-consumer"
+	}
+	return cp
+}
 
 func recordCall(op string, args map[string]interface{}, scopes map[string]interface{}) {
 	rec.Trace = append(rec.Trace, "handler:"+op)
@@ -507,7 +522,7 @@ type foreignResponse struct{}
 // strictReply instantiates the curOpt.Sel-th declared response type of the operation, fills it
 // with marker values by reflection and records what it returned.
 func strictReply(op string, cands []interface{}) interface{} {
-	if curOpt.HErr || len(cands) == 0 {
+	if (curOpt.HErr && !curOpt.HErrResp) || len(cands) == 0 {
 		return nil
 	}
 	c := cands[((curOpt.Sel%len(cands))+len(cands))%len(cands)]
@@ -686,7 +701,7 @@ func scopesFromContext(ctx context.Context) map[string]interface{} {
 	m := map[string]interface{}{}
 	for k, key := range scopeKeys {
 		if v := ctx.Value(key); v != nil {
-			m[k] = v
+			m[k] = takeScopes(v)
 		}
 	}
 	return m
